@@ -45,6 +45,14 @@ EnvAnswer == /\ st.ph = "sent" /\ ~FaultDue
                       THEN DoAnswer(st, P, "rack", FALSE)                       \* R(NAK) for a block the card never saw
                       ELSE DoAnswer(st, P, "rsp", ~(P.proto = "T4" /\ st.ex > 0))
              /\ UNCHANGED <<left, extra>> /\ Keep
+\* ISO-DEP card asks for more time instead of answering the first attempt of the scripted command: the fault then hits
+\* the S(WTX) exchange
+EnvWtx == /\ st.ph = "sent" /\ P.proto = "T4" /\ st.cc \in {"I", "R"} /\ st.pos = sc.p /\ left = sc.b /\ st.att = 1 /\ extra = 0
+          /\ st' = DoAnswer(st, P, "wtx", FALSE)
+          /\ extra' = 2 /\ UNCHANGED left /\ Keep
+CWtx == /\ st.ph = "wtx"
+        /\ st' = DoSend(st, P, 2000, "S")
+        /\ UNCHANGED <<left, extra>> /\ Keep
 EnvFault == /\ st.ph = "sent" /\ FaultDue
             /\ st' = DoFault(st, P, sc.k, sc.m = "after" /\ (P.proto = "T4" => st.ex = 0))
             /\ left' = left - 1 /\ UNCHANGED extra /\ Keep
@@ -67,7 +75,7 @@ BSwallow == st.ph = "idle" /\ st.gave > 0 /\ P.doc = {} /\ st' = DoRet(st, P, P.
 BTwice == st.ph = "idle" /\ st.pos >= 1 /\ st.ex = 1 /\ st' = VIf([st EXCEPT !.ex = 2], 2 > 1 + st.fAfter, "executed-twice")
 Bug == Buggy /\ (BResend \/ BOver \/ BNoRetry \/ BRaw \/ BWrongErrno \/ BSwallow \/ BTwice) /\ UNCHANGED <<left, extra>> /\ Keep
 
-Next == CSend \/ CRetry \/ CReack \/ CDirty \/ EnvAnswer \/ EnvFault \/ CRet \/ Done \/ Bug
+Next == CSend \/ CRetry \/ CReack \/ CDirty \/ EnvAnswer \/ EnvFault \/ EnvWtx \/ CWtx \/ CRet \/ Done \/ Bug
 Spec == Init /\ [][Next]_vars /\ WF_vars(Next)
 
 Bounded == BoundedP(st, P)
@@ -89,5 +97,6 @@ W_GiveUp == ~(st.ph = "done" /\ st.gave > 0 /\ st.ret.kind = "tagerr")
 W_Doc == ~(st.ph = "done" /\ st.gave > 0 /\ st.ret.kind = "ok")
 W_AbsorbAfter == ~(st.ph = "done" /\ st.gave = 0 /\ st.fAfter >= 2)
 W_Rack == ~(st.ph = "reack")
+W_WtxFault == ~(P.proto = "T4" /\ extra = 2 /\ st.ph = "faulted")
 W_Passive == ~(P.proto = "T2" /\ st.cc = "ssel2" /\ st.ph = "idle" /\ st.gave = 0 /\ sc.p = 2 /\ sc.k = "timeout" /\ left < sc.b)
 =============================================================================
